@@ -3,6 +3,7 @@ package main
 import (
 	"fmt"
 	"go/ast"
+	"go/constant"
 	"go/token"
 	"go/types"
 	"strings"
@@ -482,7 +483,7 @@ func (e *Env) autoRangeInvariant(fr *Frame, st *State, b *ssa.BasicBlock, l *loo
 		nConst := 0
 		for _, ed := range ph.Edges {
 			if c, isC := ed.(*ssa.Const); isC {
-				if c.Value == nil || c.Int64() != -1 {
+				if c.Value == nil || c.Value.Kind() != constant.Int || c.Int64() != -1 {
 					okShape = false
 				}
 				nConst++
